@@ -47,6 +47,16 @@ type Violation struct {
 	Known     string            `json:"known_finding,omitempty"`
 	Count     int               `json:"paths_with_same_failure"`
 	Events    []string          `json:"events,omitempty"`
+	// kind "nondeterminism": the completed path that gave another outcome for the same inputs
+	Other        []int  `json:"other_decisions,omitempty"`
+	OutcomeKey   string `json:"outcome_key,omitempty"`
+	Outcome      string `json:"outcome,omitempty"`
+	OtherOutcome string `json:"other_outcome,omitempty"`
+}
+
+type outcomeRec struct {
+	outcome   string
+	decisions []int
 }
 
 type Sample struct {
@@ -79,6 +89,7 @@ type Explorer struct {
 	obls          int64
 	ends          map[string]int
 	viols         map[string]*Violation
+	outcomes      map[string]*outcomeRec
 	knownHit      map[string]*Violation
 	reached       map[string]int
 	samples       []Sample
@@ -716,6 +727,26 @@ func (w *Worker) finishPath(end *PathEnd, m *Machine) {
 			}
 		}
 	}
+	// schedule determinism: completed paths that report an outcome for the same inputs (verifOutcome(key, outcome))
+	// must report the same one, whatever the interleaving and the map orders that led there
+	if m != nil && end.Kind == "ok" && viol == nil {
+		for _, kv := range m.outcomes {
+			if e.outcomes == nil {
+				e.outcomes = map[string]*outcomeRec{}
+			}
+			rec := e.outcomes[kv[0]]
+			if rec == nil {
+				e.outcomes[kv[0]] = &outcomeRec{kv[1], append([]int{}, w.taken...)}
+				continue
+			}
+			if rec.outcome != kv[1] {
+				end = &PathEnd{Kind: "nondeterminism", Msg: "the outcome depends on the schedule [" + kv[0] + "]: " + rec.outcome + " <> " + kv[1]}
+				viol = &Violation{Kind: end.Kind, Msg: end.Msg, Decisions: append([]int{}, w.taken...), PC: append([]string{}, m.pc...), Events: m.events,
+					Other: rec.decisions, OutcomeKey: kv[0], Outcome: kv[1], OtherOutcome: rec.outcome}
+				break
+			}
+		}
+	}
 	if knownID != "" {
 		e.ends["known-finding"]++
 	} else {
@@ -723,7 +754,9 @@ func (w *Worker) finishPath(end *PathEnd, m *Machine) {
 	}
 	if viol != nil {
 		key := end.Kind + ": " + end.Msg
-		if m != nil && len(m.events) > 0 {
+		if end.Kind == "nondeterminism" {
+			key = end.Kind + ": " + viol.OutcomeKey
+		} else if m != nil && len(m.events) > 0 {
 			key += " @ " + m.events[0]
 		}
 		tbl := e.viols
